@@ -1,0 +1,26 @@
+"""Verification hooks (inert unless the environment variable OPC_VERIF_TRACE names a file).
+
+Each call appends one ndjson event to that file, after the state change it reports. Used only by the
+conformance checks of the external verification framework; never enabled in normal use or by the tests.
+"""
+
+import json
+import os
+from typing import Any
+
+_GUARD = "OPC_VERIF_TRACE"
+_seq = 0
+
+
+def enabled() -> bool:
+    return bool(os.environ.get(_GUARD))
+
+
+def emit(ev: str, **fields: Any) -> None:
+    path = os.environ.get(_GUARD)
+    if not path:
+        return
+    global _seq  # noqa: PLW0603
+    _seq += 1
+    with open(path, "a", encoding="utf-8") as f:
+        f.write(json.dumps({"seq": _seq, "ev": ev, **fields}, default=str, sort_keys=True) + "\n")
